@@ -19,6 +19,7 @@ R3  Box-Behnken: pair loops i < j; the counter is incremented once per pair
     centre run and maps codes to (lo, mid, hi).
 """
 import ast
+import re
 from fractions import Fraction
 
 from ..astutil import (text, access_path, calls_in, func_params, stmts_of, is_const, const_value, method_call, range_bounds, fold)
@@ -341,7 +342,12 @@ def r2_pb(ctx, repo):
     bad_detail = ""
     d_ = func_params(bp)[0]
     rts = [canonical(t) for _, t in Terms(bp).returns if t is not None]
-    wired = rts == ["construct_df(np.vectorize(index_change)(pbdesign(len({d}))), [{d}[_0] for _0 in {d}])".format(d=d_)]
+    # the recoding function may be local to the builder or a function of the module; what matters is its code table
+    m_ = re.match(r"construct_df\(np\.vectorize\((\w+)\)\(pbdesign\(len\(%s\)\)\), \[%s\[_0\] for _0 in %s\]\)$" % ((re.escape(d_),) * 3), rts[0]) if len(rts) == 1 else None
+    wired = m_ is not None
+    if wired:
+        ic = [f for f in ast.walk(bp) if isinstance(f, ast.FunctionDef) and f.name == m_.group(1)] or \
+             ([doe.functions[m_.group(1)]] if m_.group(1) in doe.functions else [])
     if ic and wired:
         table = code_table(ic[0], (-1, 1))
         if table == {-1: 0, 1: 1}:
